@@ -18,14 +18,20 @@ class Broken(Exception):
     check is broken, which is neither a pass nor a violation."""
 
 
+import threading
+_SUB_LOCK = threading.Lock()
+
+
 class Work:
     """A scratch directory outside /repo and /verif, removed on exit."""
     def __init__(self, tag):
         self.dir = tempfile.mkdtemp(prefix="vcheck-%s-" % tag)
         self.n = 0
     def sub(self, name):
-        self.n += 1
-        p = os.path.join(self.dir, "%s-%d" % (name, self.n))
+        with _SUB_LOCK:
+            self.n += 1
+            k = self.n
+        p = os.path.join(self.dir, "%s-%d" % (name, k))
         os.makedirs(p)
         return p
     def close(self):
